@@ -48,7 +48,7 @@ def check_conversions(ctx):
     results = {}
     for (an, (af, au)), (bn, (bf, bu)) in itertools.product(U.items(), U.items()):
         I = Interp(repo)
-        out = I.call(cf, [symarr('nu', (N_,), unit=sym('unit:Hz')), symarr('X', (A_, N_), unit=au), Arr((), bu, unit=bu)], {'distance': scalar(d, sym('unit:cm'))})
+        out = I.call(cf, [symarr('nu', (N_,), unit=sym('unit:Hz')), symarr('X', (A_, N_), unit=au), Arr((), bu, unit=bu)], {'distance': scalar(d, sym('unit:Udist'))})
         inst = '%s -> %s' % (an, bn)
         if af == 'other' or bf == 'other':
             ctx.expect(isinstance(out, Unk) and 'raises' in out.why, 'ALG-15', inst + ' refused', loc(cf), 'unsupported unit raises', 'unsupported unit accepted: %r' % (out,), 'refusal')
